@@ -31,9 +31,17 @@ K = 6
 
 
 def plan(tier, seed, budget):
-    n = int((96 if tier == "quick" else 4000) * budget)  # batches
+    n = int((64 if tier == "quick" else 4000) * budget)  # batches
     shards = 16 if tier == "quick" else 32
-    return [{"n": max(1, n // shards)} for _ in range(shards)]
+    specs = [{"n": max(1, n // shards)} for _ in range(shards)]
+    # single-rule batches: every rule's hosts, many per batch, run forward in one process and backward in another
+    from vf.rulehosts import planters
+
+    np_ = len(planters())
+    fs = 16 if tier == "quick" else 32
+    per = 40 if tier == "quick" else 600  # hosts per planter
+    specs += [{"n": max(1, int(per * budget)), "focus": list(range(i, np_, fs))} for i in range(fs) if i < np_]
+    return specs
 
 
 def run_worker(ops, hashseed):
@@ -63,8 +71,11 @@ def gscript(x: FLOAT[None]) -> FLOAT[None]:
 
 
 @st.composite
-def targets(draw):
-    kind = draw(st.sampled_from(["script", "script", "script_repeat", "script_nearmiss", "optimize", "optimize", "optimize_ir", "rewrite", "fold", "convert", "mutate_globals"]))
+def targets(draw, focus=None):
+    kinds = ["script", "script", "script_repeat", "script_nearmiss", "optimize", "optimize", "optimize_ir", "rewrite", "fold", "convert", "mutate_globals"]
+    if focus is not None:
+        kinds = ["optimize", "optimize_ir", "rewrite", "rewrite"]
+    kind = draw(st.sampled_from(kinds))
     if kind == "mutate_globals":
         return {"kind": "script_mutate_globals", "source": GLOBAL_SCRIPT, "name": "gscript", "opset": 18,
                 "globals": {"GCONST": draw(st.sampled_from([0.5, 2.0])), "PERM": [0, 1]}, "mutate": {"GCONST": 7.0, "PERM": [1, 0]}, "fails": False}
@@ -79,10 +90,15 @@ def targets(draw):
             kind = "script"
         return {"kind": kind, "source": gp.source, "name": gp.prog.name, "opset": gp.prog.opset, "fails": False, "control_flow": bool(set(gp.features) & {"if", "for", "while"})}
     cfg = _cfg()
+    if focus is not None:
+        # a small host of ONE rule (all targets and histories of the batch share it: state kept by the rule object shows)
+        cfg.update(pre=focus, max_nodes=2, min_nodes=0, max_inputs=1, symbolic=draw(st.booleans()), value_info=draw(st.booleans()))
     if kind == "convert":
         cfg = dict(cfg, opset=draw(st.sampled_from([18, 19, 20])))
     gm = draw(modelgen.models(cfg))
     op = {"kind": kind, "model": optcommon.model_to_json(gm.model), "fails": False, "planted": [f for f in gm.features if f.startswith("planted:")][:4]}
+    if focus is not None:
+        op["focus"] = getattr(focus, "__name__", "planter")
     if kind == "convert":
         op["target"] = draw(st.sampled_from([20, 21, 22, 23]))
     if kind == "fold":
@@ -93,7 +109,7 @@ def targets(draw):
 def key_of(op):
     import hashlib
 
-    return hashlib.sha1(json.dumps({k: v for k, v in op.items() if k not in ("fails", "planted", "control_flow")}, sort_keys=True).encode()).hexdigest()[:16]
+    return hashlib.sha1(json.dumps({k: v for k, v in op.items() if k not in ("fails", "planted", "control_flow", "focus")}, sort_keys=True).encode()).hexdigest()[:16]
 
 
 def compare_runs(tg, a, b):
@@ -123,13 +139,13 @@ def run_shard(spec):
         rb = run_worker(ops_b, hs_b)
         b = [rb[pos[i]] for i in range(len(tg))]
         # process C: first target alone, third hash seed
-        c = run_worker([tg[0]], hs_c)
+        c = run_worker([tg[0]], hs_c) if hs_c is not None else a
         diffs = compare_runs(tg, a, b)
         rb0 = None
         for i, t in enumerate(tg):
             ra, rbb = a[i], b[i]
             nontrivial = True
-            classes = ["target:" + t["kind"], "hashseedB:%s" % hs_b]
+            classes = ["target:" + t["kind"], "hashseedB:%s" % hs_b] + (["single_rule_batch"] if t.get("focus") else [])
             if t.get("fails"):
                 classes.append("failing_target")
             if ra.get("d", "").startswith("EXC"):
@@ -152,10 +168,74 @@ def run_shard(spec):
                           {"target": tg[0], "ops_b": [tg[0]], "index": 0, "hashseed": hs_c, "cause": "hash_seed"}, size=1)
         col.extra["subprocesses"] = col.extra.get("subprocesses", 0) + 3 + (1 if rb0 is not None else 0)
 
-    strat = st.tuples(st.lists(targets(), min_size=K, max_size=K), st.lists(st.lists(targets(), min_size=0, max_size=2), min_size=1, max_size=3),
-                      st.sampled_from([1, 2, 3, 12345, 99]), st.sampled_from([5, 7, 4242]), st.integers(0, 10))
-    drive(strat, body, spec["n"], spec["seed"])
+    @st.composite
+    def batch(draw):
+        tg = [draw(targets()) for _ in range(K)]
+        hist = [[draw(targets()) for _ in range(draw(st.integers(0, 2)))] for _ in range(draw(st.integers(1, 3)))]
+        return (tg, hist, draw(st.sampled_from([1, 2, 3, 12345, 99])), draw(st.sampled_from([5, 7, 4242])), draw(st.integers(0, 10)))
+
+    if spec.get("focus"):
+        for j, idx in enumerate(spec["focus"]):  # every rule's planter gets its own batch (construction, not chance)
+            _single_rule_batch(col, idx, spec["n"], spec["seed"] + 7919 * j)
+        return col.result()
+    drive(batch(), body, spec["n"], spec["seed"])
     return col.result()
+
+
+def _single_rule_batch(col, idx, n, seed):
+    """Many small hosts of ONE rule.  Fresh process: forward order.  This process: backward order, then forward order again.  State that
+    a rule / pass object keeps from one match (or one model) to the next shows as a digest that differs from the fresh process."""
+    from vf import c14_worker
+    from vf.rulehosts import planters
+
+    focus = planters()[idx]
+    ops, seen = [], set()
+
+    def collect(op):
+        k = key_of(op)
+        if k not in seen:
+            seen.add(k)
+            ops.append(op)
+
+    drive(targets(focus), collect, n, seed)
+    if not ops:
+        return
+    fresh = run_worker(ops, 0)
+    col.extra["subprocesses"] = col.extra.get("subprocesses", 0) + 1
+
+    def local(op):
+        try:
+            return c14_worker.do(op)
+        except Exception as e:  # noqa: BLE001
+            return {"d": "EXC:" + type(e).__name__}
+
+    history = []
+    for order in (list(range(len(ops)))[::-1], list(range(len(ops)))):
+        for i in order:
+            r = local(ops[i])
+            t = ops[i]
+            col.case(key_of(t) + ":h%d" % len(history), True, ["target:" + t["kind"], "single_rule_batch", "single_rule:" + t.get("focus", "?")],
+                     sample={k: (v if k != "model" else "<model>") for k, v in t.items()} if not history else None)
+            if r.get("d") != fresh[i].get("d"):
+                # look for a short history that reproduces it in a subprocess
+                hist = None
+                for h in history[::-1][:40]:
+                    rr = run_worker([h, t], 0)
+                    col.extra["subprocesses"] += 1
+                    if rr[1].get("d") != fresh[i].get("d"):
+                        hist = [h]
+                        break
+                if hist is None:
+                    rr = run_worker(history + [t], 0)
+                    col.extra["subprocesses"] += 1
+                    if rr[-1].get("d") == fresh[i].get("d"):
+                        col.skip("in_process_difference_not_reproduced_in_subprocess")
+                        history.append(t)
+                        continue
+                    hist = list(history)
+                col.violation(f"history_dependent:{t['kind']}", f"[{t.get('focus', '')}] fresh process {fresh[i].get('d')}, after {len(hist)} earlier operation(s) of the same rule's hosts {r.get('d')}",
+                              {"target": t, "ops_b": hist + [t], "index": len(hist), "hashseed": 0, "cause": "history"}, size=len(hist))
+            history.append(t)
 
 
 def replay(case):
